@@ -2,12 +2,7 @@
 #ifndef ASSETS_SHIMS_H
 #define ASSETS_SHIMS_H
 
-/* ---- ghost indices (arbitrary, unconstrained except by the contract's requires) ---- */
-size_t GS;          /* arbitrary candidate start of a ".." segment      (soundness direction) */
-size_t GN;          /* arbitrary index of a NUL / backslash byte          (soundness direction) */
-/* ---- ghost witnesses written by the shims (completeness direction: "exists" by exhibiting the index) ---- */
-size_t G_find_r;    /* last result of string_view::find                                       */
-size_t G_sub_pos;   /* pos argument of the last string_view::substr                           */
+#include "lex_contract.h"
 
 static inline char iora_sv_front(const iora_sv *s) { IORA_ASSERT(s->n > 0, "string_view::front() on non-empty view"); return s->p[0]; }
 
@@ -38,7 +33,6 @@ static inline bool iora_sv_eq_lit(iora_sv x, const char *s, size_t len)
  * Contains a loop -> contract-replaced in the client proof; the body below is proved against the same contract (proof "find_shim").
  * The first-occurrence fact is stated at the ghost terms the client uses: GN, GS-1, GS+2. */
 #define FIND_END(r, s) ((r) == IORA_NPOS ? (s).n : (r))
-#define IORA_SV_MAXLEN ((size_t)1 << 50)     /* stated bound on a view's length (object-bits 10 leaves 54 offset bits) */
 size_t iora_sv_find_ch_contract(iora_sv s, char c, size_t pos)
   __CPROVER_requires(IORA_TRUE && s.n <= IORA_SV_MAXLEN && __CPROVER_is_fresh(s.p, s.n))
   __CPROVER_assigns(G_find_r)
